@@ -56,7 +56,14 @@ def bounded_tasks():
                      "file per page object, every link live, one id per specific procedure", bound="1 project", cases=1, seconds=time.time() - t3, backend="enumeration")
         if pf:
             r5.replay, r5.witness = pf, pf["input"]
-        return [r, r2, r3, r4, r5]
+        t4 = time.time()
+        gf = c10.graph_files()
+        r6 = OR(id=f"{PROP}.Bd.graphs.file_names", status=REFUTED if gf else PROVED, kind="Bd", role="bounded", target="ford.graphs.GraphManager.graph_all (real)",
+                desc="a program, a module procedure and a type that share the name `convert`: every (entity, graph) pair is saved under a file name of its own", bound="1 project", cases=1,
+                seconds=time.time() - t4, backend="enumeration")
+        if gf:
+            r6.replay, r6.witness = gf, gf["input"]
+        return [r, r2, r3, r4, r5, r6]
     return [Task(f"{PROP}.Bd", PROP, "bounded", run)]
 
 
@@ -164,7 +171,8 @@ def link_copy_agreement(var, dest):
 
 def build(tier, seed):
     set_tier(tier)
-    tasks = [a_task(PROP, _get_name), a_task(PROP, _anchor), a_task(PROP, _object_page), a_task(PROP, _is_interface_procedure), src_copy_task()] + bounded_tasks()
+    tasks = [a_task(PROP, _get_name), a_task(PROP, _anchor), a_task(PROP, _object_page), a_task(PROP, _is_interface_procedure), src_copy_task(),
+             Task(f"{PROP}.S.graph_ident", PROP, "FortranGraph.__init__", lambda: names.graph_ident_obligation(PROP, lambda: __import__("bounded.c10", fromlist=["x"]).graph_files()))] + bounded_tasks()
     meta = {
         "trusted_base": TRUSTED_BASE,
         "assumptions": PYVC_ASSUMPTIONS + [
